@@ -40,9 +40,9 @@ RULE = (
     "(the situation in which a rebuild without mappings renumbers); distinct = distinct canonical screen"
 )
 BOUNDS = {
-    "quick": {"parents": 8, "fractions": [0.5, 1.0], "bfs_depth": 3, "reveal_sets": "every non-empty subset of unobserved plates",
+    "quick": {"parents": 8, "fractions": [0.5, 1.0], "bfs_depth": 3, "cli_prepared": "4 CLI configurations x 2 parents, random answers with <= 1 deviation, <= 12 leaves each", "reveal_sets": "every non-empty subset of unobserved plates",
               "cli": "singletons"},
-    "thorough": {"parents": 16, "fractions": [0.25, 0.5, 0.75, 1.0], "bfs_depth": "fixpoint", "reveal_sets": "every non-empty subset",
+    "thorough": {"parents": 16, "fractions": [0.25, 0.5, 0.75, 1.0], "bfs_depth": "fixpoint", "cli_prepared": "4 CLI configurations x 6 parents, <= 2 deviations, <= 150 leaves each", "reveal_sets": "every non-empty subset",
                  "cli": "singletons and the full set"},
 }
 ASSUMPTIONS = [
@@ -96,6 +96,11 @@ def plan(tier, seed):
     for pi, v in enumerate(parents(tier)):
         for f in fr:
             items.append({"variant": [v[0], v[1], v[2], v[3]], "fraction": f})
+    ps = parents(tier)
+    for ci, cfg in enumerate(CLI_CONFIGS):
+        for pi in range(2 if tier == "quick" else 6):
+            v = ps[(ci + 3 * pi) % len(ps)]
+            items.append({"variant": [v[0], v[1], v[2], v[3]], "fraction": 0.5, "cli": cfg})
     return items
 
 
@@ -230,7 +235,59 @@ def op_name(op):
 
 
 # ------------------------------------------------------------------ item
-def prepare(item, chooser):
+CLI_CONFIGS = {
+    # the real preparation path of a retrospective simulation (prepare_retrospective_simulation.main):
+    # filter -> mask / initial cover -> plate generator -> reveal of a first plate -> smoother -> hold-out
+    "plain": [],
+    "segregate": ["--plate-generator", "SampleSegregatingPermutationPlateGenerator", "--plate-generator-param", "max_plate_size=2"],
+    "cover+segregate": ["--initial-plate-generator", "SparseCoverPlateGenerator", "--initial-plate-generator-param",
+                        "reveal_single_treatment_experiments=false",
+                        "--plate-generator", "SampleSegregatingPermutationPlateGenerator", "--plate-generator-param", "max_plate_size=2"],
+    "segregate+fixed": ["--plate-generator", "SampleSegregatingPermutationPlateGenerator", "--plate-generator-param", "max_plate_size=2",
+                        "--plate-smoother", "FixedSizeSmoother", "--plate-smoother-param", "plate_size=1"],
+}
+CLI_LEAF_CAP = {"quick": 12, "thorough": 150}
+
+
+def prepare_cli(item, chooser, tmpdir):
+    """Run the real CLI with its generator replaced by the scripted one: every random answer of
+    the whole preparation is a choice point.  The 'parent' used as reference is the union of the
+    two written halves under the training half's mappings."""
+    import batchie.cli.prepare_retrospective_simulation as prep
+
+    v = item["variant"]
+    full = make_screen([(r[0], r[1], r[2], r[3], True) for r in _parent_rows((v[0], v[1], v[2], v[3]))], control=v[0])
+    a, tr, te = (os.path.join(tmpdir, x) for x in ("cli_in.h5", "cli_train.h5", "cli_test.h5"))
+    full.save_h5(a)
+    saved = prep.get_prng_from_seed_argument
+    prep.get_prng_from_seed_argument = lambda args: ScriptedGenerator(chooser)
+    try:
+        run_cli("prepare_retrospective_simulation", ["--data", a, "--training-output", tr, "--test-output", te,
+                                                     "--holdout-fraction", item["fraction"], "--seed", 0] + CLI_CONFIGS[item["cli"]])
+    finally:
+        prep.get_prng_from_seed_argument = saved
+    train, test = Screen.load_h5(tr), Screen.load_h5(te)
+    parent = Screen(
+        treatment_names=np.concatenate([train.treatment_names, test.treatment_names]),
+        treatment_doses=np.concatenate([train.treatment_doses, test.treatment_doses]),
+        sample_names=np.concatenate([train.sample_names, test.sample_names]),
+        plate_names=np.concatenate([train.plate_names, test.plate_names]),
+        observations=np.concatenate([train.observations, test.observations]),
+        control_treatment_name=train.control_treatment_name,
+        treatment_mapping=train.treatment_mapping, sample_mapping=train.sample_mapping,
+    )
+    return parent, train, test
+
+
+def prepare(item, chooser, tmpdir=None):
+    if item.get("cli"):
+        own = tmpdir is None
+        tmpdir = tmpdir or env.scratch_dir("c03p")
+        try:
+            return prepare_cli(item, chooser, tmpdir)
+        finally:
+            if own:
+                shutil.rmtree(tmpdir, ignore_errors=True)
     v = item["variant"]
     parent = make_screen(_parent_rows((v[0], v[1], v[2], v[3])), control=v[0])
     rng = ScriptedGenerator(chooser)
@@ -255,7 +312,25 @@ def run_item(item, col, tier):
     depth = None if tier == "thorough" else BOUNDS["quick"]["bfs_depth"]
     tmpdir = env.scratch_dir("c03")
     try:
-        for ch, (parent, train, test) in explore(lambda c: prepare(item, c)):
+        info = {}
+        cli_cap = (CLI_LEAF_CAP[tier], info) if item.get("cli") else None
+
+        def _prep(c):
+            try:
+                return prepare(item, c, tmpdir)
+            except BaseException as exc:  # noqa: BLE001  (argparse exits, refusals of generators)
+                from ..explore import NondeterminismError
+                if isinstance(exc, (NondeterminismError, KeyboardInterrupt)):
+                    raise
+                return ("refused", exc, None)
+
+        for ch, (parent, train, test) in explore(_prep, bound=(1 if item.get("cli") and tier == "quick" else (2 if item.get("cli") else None)), max_leaves=cli_cap):
+            if isinstance(parent, str):
+                col.refused += 1
+                col.outcome("prepare-refused", type(train).__name__)
+                continue
+            if item.get("cli"):
+                col.count("cli-prepared pairs")
             ctx = context(parent)
             full_s, full_t = set(ctx[0]), set(ctx[1])
             for half_name, root in (("train", train), ("test", test)):
@@ -315,6 +390,8 @@ def run_item(item, col, tier):
                 if col.evaluations <= 2:
                     col.sample({"variant": item["variant"], "fraction": item["fraction"], "split_answers": ch.choices, "half": half_name,
                                 "root_rows": describe(root), "bfs_states": stats["states"], "bfs_transitions": stats["transitions"]})
+        if info.get("cap_hit"):
+            col.cap(f"CLI-prepared pairs: answer tree cut at {CLI_LEAF_CAP[tier]} leaves per (configuration, parent), deviation-bounded")
     finally:
         shutil.rmtree(tmpdir, ignore_errors=True)
 
